@@ -1,6 +1,7 @@
 package main
 
 import (
+	"go/token"
 	"fmt"
 	"go/types"
 	"strings"
@@ -400,17 +401,7 @@ func checkICCPng(p *Program, r *Report) {
 	r.Check(errOK && nErr > 0, rule, "damaged", pos, fmt.Sprintf("on %d paths a zlib header or stream error is recorded as the ICC error, no bytes, dimensions kept", nErr), why)
 	r.Check(absentOK && nAbsent > 0, rule, "absent", pos, "without an iCCP chunk the accessor yields (nil, nil)", why)
 	// name loop bound 80 / 79-byte limit
-	nameOK := false
-	for f := range reachableFns(fn) {
-		if !inMeta(f) || !strings.HasSuffix(f.Pkg.Pkg.Path(), "pngmeta") {
-			continue
-		}
-		for _, iv := range loopIndVars(f) {
-			if c, ok := constInt(iv.Limit); ok && c == 80 {
-				nameOK = true
-			}
-		}
-	}
+	nameOK := pngNameLoopBound(fn)
 	r.Check(nameOK, rule, "name bound", pos, "the profile-name loop is bounded by 80 bytes (79-character names + terminator)", "the profile name loop is not bounded by 80")
 }
 
@@ -682,4 +673,22 @@ func checkICCJpeg(p *Program, r *Report) {
 	if c, ok := constOf(p, "meta/jpegmeta", "markerTypeApp2"); ok {
 		r.Check(c.Num().Int64() == 0xe2, rule, "APP2 = 0xE2", pos, "markerTypeApp2 = 0xE2", "markerTypeApp2 is not 0xE2")
 	}
+}
+
+// pngNameLoopBound: the iCCP profile-name loop can read 80 bytes (a 79-byte
+// name and its NUL terminator).
+func pngNameLoopBound(fn *ssa.Function) bool {
+	for f := range reachableFns(fn) {
+		if !inMeta(f) || !strings.HasSuffix(f.Pkg.Pkg.Path(), "pngmeta") {
+			continue
+		}
+		for _, iv := range loopIndVars(f) {
+			if c, ok := constInt(iv.Limit); ok && ((iv.Op == token.LSS && c == 80) || (iv.Op == token.LEQ && c == 79)) {
+				if s, okS := constInt(iv.Step); okS && s == 1 {
+					return true
+				}
+			}
+		}
+	}
+	return false
 }
